@@ -36,6 +36,13 @@ theorem forEach_all {α : Type} (l : List α) (p : α → Bool) :
     · rw [List.all_cons, hp]
       simpa [hp] using ih
 
+/-- a loop that never leaves early is a fold -/
+theorem forEach_next {α σ : Type} (l : List α) (st : σ) (g : α → σ → σ) :
+    PyRt.forEach (β := Empty) l st (fun x s => .next (g x s)) = .next (l.foldl (fun s x => g x s) st) := by
+  induction l generalizing st with
+  | nil => rfl
+  | cons x xs ih => simp only [PyRt.forEach, List.foldl_cons]; exact ih _
+
 theorem any_addrs {s : State} (hwf : WF s) (f : Row → Bool) :
     (s.map (·.addr)).any (fun x => f (s.get x)) = s.any f := by
   rw [List.any_map]
